@@ -344,8 +344,8 @@ From Dns Require Import Proofs.RoundtripConverseProofs.
                        k = K_apl: every address has no bits beyond its prefix
                        ([apl_masked]: mask_bytes ip prefix = ip);
                        k = K_svcb: every alpn value reports the length of its
-                       packed form ([alpn_len_ok]; false exactly when the wire
-                       value holds an empty id); True for every other kind.
+                       packed form ([alpn_len_ok]; it always does since the
+                       decoder refuses an empty id, fix 59da914); True for every other kind.
    [present ps v]      every struct field the layout ps assigns is present in v
                        (unpack() ran through all its statements).
    [values_ok v ps]    [value_ok] for every field of the layout. *)
@@ -378,10 +378,8 @@ Print Assumptions apl_decoded_value_not_canonical_refuted.
 
 Theorem svcb_decoded_value_not_canonical_refuted :
   repack K_svcb [0; 0; 0; 4; 0; 4; 0; 1] = Some [0; 0; 0; 4; 0; 1; 0; 4] /\
-  decoded K_svcb [0; 1; 0; 1; 0] = Some [V_pairs [(1, [], 1)]] /\
-  repack K_svcb [0; 1; 0; 1; 0] = Some [0; 1; 0; 0] /\
-  reunpack K_svcb [0; 1; 0; 1; 0] = Some [V_pairs [(1, [], 0)]] /\
-  ~ alpn_len_ok (1, [], 1).
+  decoded K_svcb [0; 1; 0; 1; 0] = None /\
+  decoded K_svcb [0; 1; 0; 2; 1; 104] = Some [V_pairs [(1, [1; 104], 2)]].
 Proof. exact svcb_normalised_refuted. Qed.
 Print Assumptions svcb_decoded_value_not_canonical_refuted.
 
